@@ -394,9 +394,10 @@ def bootinfo_case(ctx, tmpdir):
     n = rng.choice([5, 8, 9, 20, 40, 56, 63, 64, 65, 100, 2048, 3000])
     data = content(77, n)
     iso = pycdlib.PyCdlib()
-    iso.new(interchange_level=3)
+    other_names = {'joliet_path': '/boot', 'udf_path': '/boot'} if rng.random() < 0.5 else {}
+    iso.new(interchange_level=3, **({'joliet': 3, 'udf': '2.60'} if other_names else {}))
     iso.add_fp(io.BytesIO(content(78, 2500)), 2500, iso_path='/OTHER.;1')
-    iso.add_fp(io.BytesIO(data), n, iso_path='/BOOT.;1')
+    iso.add_fp(io.BytesIO(data), n, iso_path='/BOOT.;1', **other_names)
     iso.add_eltorito('/BOOT.;1', boot_info_table=True, boot_load_size=4)
     rp = {'kind': 'bootinfo', 'seed_case': ctx.case_seed}
 
@@ -429,6 +430,19 @@ def bootinfo_case(ctx, tmpdir):
         except Exception:  # noqa (reported by check)
             return
         want = want.getvalue()
+        # the same bytes under every name of the file
+        for key, val in other_names.items():
+            alt = io.BytesIO()
+            try:
+                obj.get_file_from_iso_fp(alt, **{key: val})
+                with obj.open_file_from_iso(**{key: val}) as f2:
+                    alt2 = f2.read()
+            except Exception as e:  # noqa
+                ctx.violation('C16.bootinfo/other-name-raises', 'reading a boot-info-table file by %s raised %r (%s)' % (key, e, stage), rp)
+                continue
+            if alt.getvalue() != want or alt2 != want:
+                ctx.violation('C16.bootinfo/other-name-differs', 'a boot-info-table file (%d bytes, %s) reads differently by %s (%s) than by iso_path' % (
+                    n, stage, key, 'extraction' if alt.getvalue() != want else 'stream'), rp)
         try:
             with obj.open_file_from_iso(iso_path='/BOOT.;1') as f:
                 whole = f.read()
